@@ -342,7 +342,8 @@ def layer2_task(t, res):
         res.count("l2_executions", st["executions"])
     # real PRNG: several seeds, every item valid
     for seed in t["seeds"]:
-        for n_mazes in (0, 1, 4):
+        # counts across the 127/128 and 255/256 boundaries once per generator (first seed), small counts for every seed
+        for n_mazes in ((0, 1, 4, 129, 257) if seed == t["seeds"][0] and gen != "gen_percolation" else (0, 1, 4)):
             cfg = make_cfg(gen, kw, t["grid_real"], n_mazes, {}, seed=seed)
             res.ev()
             rd = dict(kind="l2real", gen=gen, kw=kw, grid=t["grid_real"], n_mazes=n_mazes, seed=seed)
